@@ -441,6 +441,12 @@ func (fr *Frame) unop(ins *ssa.UnOp) {
 	x := fr.get(ins.X)
 	switch ins.Op {
 	case token.MUL:
+		if g, ok := ins.X.(*ssa.Global); ok && fr.vc.w.pkg.Members[g.Name()] == g && g.Name() == "_LEN" {
+			// package-level variables keep their initial values (trusted base item 5,
+			// write-freedom scan): _LEN is the nil slice
+			fr.set(ins, &Val{T: ins.Type(), L: []string{"0", "0", "0"}})
+			return
+		}
 		fr.nilCheck(ins, x.L[0])
 		v := fr.load(x.L[0], ins.Type())
 		// global maps are known by the loader
